@@ -103,7 +103,17 @@ impl ContinuousOutput {
         }
         
         let tol = 1e-12;
-        
+
+        // A segment that really contains t wins over one that is merely within the slack
+        // (steps shorter than the slack would otherwise be answered by an earlier segment)
+        for seg in &self.segs {
+            let left = seg.xold.min(seg.xold + seg.h);
+            let right = seg.xold.max(seg.xold + seg.h);
+            if t >= left && t <= right {
+                return Some(seg);
+            }
+        }
+
         // Strict interpolation - only return segment if t is within it
         for seg in &self.segs {
             let left = seg.xold.min(seg.xold + seg.h);
@@ -122,7 +132,16 @@ impl ContinuousOutput {
         }
         
         let tol = 1e-12;
-        
+
+        // A segment that really contains t wins over one that is merely within the slack
+        for seg in &self.segs {
+            let left = seg.xold.min(seg.xold + seg.h);
+            let right = seg.xold.max(seg.xold + seg.h);
+            if t >= left && t <= right {
+                return Some(seg);
+            }
+        }
+
         // First check if t is within any segment (interpolation)
         for seg in &self.segs {
             let left = seg.xold.min(seg.xold + seg.h);
